@@ -54,6 +54,11 @@ class ExprMixin:
                 return v            # constant table, by value from the real module
             if isinstance(v, (set, frozenset)):
                 return frozenset(v)
+            if isinstance(v, dict) and v and all(callable(x) for x in v.values()):
+                return self.module_lambda_table(name)
+            inl = getattr(self.contract, "inline", {}) or {}
+            if name in inl:
+                return self.inline_function(inl[name])
             if name in BUILTINS:
                 return Builtin(name)
             if isinstance(v, type):
